@@ -678,6 +678,14 @@ HLIstaccess(accrec_t *access_rec, int16 acc_mode)
         UINT16DECODE(p, info->link_ref);
     }
 
+    /* a record that did not reach the file in one piece (its write failed)
+       must not be walked: with no blocks per table there is no block_list[0] */
+    if (info->length < 0 || info->block_length <= 0 || info->number_blocks <= 0) {
+        free(info);
+        access_rec->special_info = NULL;
+        HGOTO_ERROR(DFE_BADLEN, FAIL);
+    }
+
     /* get the block length and number of blocks */
     access_rec->block_size = info->block_length;
     access_rec->num_blocks = info->number_blocks;
